@@ -36,6 +36,10 @@ def _c04(v, b, tier):
     tpl_checks.check_c04(v, b.t1_summary, 70 * SIZES[tier], 6)
 
 
+def _c09(v, b, tier):
+    tpl_checks.check_c09(v, b.t1_summary, 80 * SIZES[tier], 5)
+
+
 def _c10(v, b, tier):
     tpl_checks.check_c10(v, b.t1_summary, 60 * SIZES[tier], 5)
 
@@ -52,6 +56,7 @@ RULE_DISP = ("sessions of public-API operations (register_*_hook on classes/NewT
 
 REGISTRY = {
     "C04": {"props_file": "Props/C04.v", "files": CORE_TPL + ["Props/C04.v"], "run": _c04, "rule": RULE_TPL, "t1_sections": ["gen"]},
+    "C09": {"props_file": "Props/C09.v", "files": CORE_TPL + ["Proofs/UnstructProofs.v", "Props/C09.v"], "run": _c09, "rule": RULE_TPL, "t1_sections": ["gen"]},
     "C10": {"props_file": "Props/C10.v", "files": CORE_TPL + ["Props/C10.v"], "run": _c10, "rule": RULE_TPL, "t1_sections": ["gen"]},
     "C07": {"props_file": "Props/C07.v", "files": CORE_A + ["Props/C07.v"], "run": _c07, "rule": RULE_DISP},
     "C08": {"props_file": "Props/C08.v", "files": CORE_A + ["Props/C08.v"], "run": _c08, "rule": RULE_DISP},
